@@ -1,6 +1,7 @@
 (* Extract/Driver_typed.v — line protocol of the typed-deserialization correspondence (area `typed`).
      pt <cfg> <src> <ty> <hex>      from_str / from_slice / from_reader through the universal seed, then end()
-   answer:  ok <dval>  |  err <code> <cat> <line> <col> <msgclass|->  |  err Io io <kind>  |  UNMODELLED
+     ptk <cfg> <src> <ty> <n> <hex> StreamDeserializer over items of type <ty>: n calls of next(), each item with byte_offset()
+   answer:  ok <dval>  |  err <code> <cat> <line> <col> <msgclass|->  |  err Io io <kind>
    Encoding of <ty> (prefix code, no spaces):
      v Value  g IgnoredAny  r Box<RawValue>  b bool  i0..i4 i8..i128  n0..n4 u8..u128  f f32  d f64  c char
      s String  z &str  y ByteBuf  u ()  U unit struct  o<ty> Option  w<ty> newtype struct  a<ty> Vec
@@ -11,7 +12,7 @@
      v<value> g r<hex> T F i<dec> d<16 hex> c<dec> s<hex> (copied) z<hex> (borrowed) y<hex> u n o<d> w<d>
      a(<d>,..) m(<d>:<d>,..) S(<d>,..) e<hexname>:<d> *)
 From SJ Require Import Base.Bytes Base.Utf8 Base.FloatB Gen.Tables
-  Model.Read Model.Str Model.Num Model.Value Model.De Model.Ignore Model.Ty Model.DeTyped Extract.Driver.
+  Model.Read Model.Str Model.Num Model.Value Model.De Model.Ignore Model.Stream Model.Ty Model.DeTyped Model.StreamTyped Extract.Driver.
 Open Scope N_scope.
 
 (* ---- <ty> parser ------------------------------------------------------------------------------------ *)
@@ -214,6 +215,25 @@ Definition show_tres (input : bytes) (r : tres dval) : bytes :=
   | TPanic => s_panic
   end.
 
+(* stream items:  V<dval>  |  E<code>/<cat>/<line>/<col>/<class|->  |  EIo/io/<kind>  |  N   each followed by @<byte_offset> *)
+Definition show_titem (input : bytes) (it : option titem) : bytes :=
+  match it with
+  | None => [78]
+  | Some (TIVal d) => 86 :: show_dval d
+  | Some (TIErr c i) =>
+    match c with
+    | Io k => 69 :: code_name c ++ 47 :: cat_name (category c) ++ 47 :: dec_of_N k
+    | _ => let '(line, col) := pos_of input i in
+           69 :: code_name c ++ 47 :: cat_name (category c) ++ 47 :: dec_of_N line ++ 47 :: dec_of_N col ++ 47 ::
+             (match c with Message k => msg_class k | _ => [45] end)
+    end
+  | Some (TIUnpos k) => 69 :: code_name (Message k) ++ 47 :: cat_name CatData ++ [47; 48; 47; 48; 47] ++ msg_class k
+  | Some TIBad => s_panic
+  end.
+
+Definition show_thist (input : bytes) (h : list (option titem * nat)) : bytes :=
+  join [sp] (map (fun p => show_titem input (fst p) ++ 64 :: dec_of_nat (snd p)) h).
+
 Definition s_unmodelled : bytes := [85;78;77;79;68;69;76;76;69;68].
 
 Definition dispatch_typed (fields : list bytes) : bytes :=
@@ -223,8 +243,15 @@ Definition dispatch_typed (fields : list bytes) : bytes :=
     match hex_decode hx, ty_of_text tyt with
     | Some input, Some t =>
       let E := mkEnv (rk_of src) TEof (cfg_of c) in
-      if float_roundtrip (cf E) && ty_has_f32 t then s_unmodelled
-      else show_tres input (from_input_typed E t input)
+      show_tres input (from_input_typed E t input)
+    | _, _ => s_bad
+    end
+  (* ptk <cfg> <src> <ty> <n> <hex> : StreamDeserializer over items of type <ty>, history of n calls of next() *)
+  | [[112;116;107]; c; src; tyt; n; hx] =>
+    match hex_decode hx, ty_of_text tyt with
+    | Some input, Some t =>
+      let E := mkEnv (rk_of src) TEof (cfg_of c) in
+      show_thist input (stream_run_typed (N.to_nat (N_of_dec n)) E t (stream_init input))
     | _, _ => s_bad
     end
   | _ => s_bad
